@@ -8,9 +8,10 @@
     Hypotheses, all visible in the statements:
     - [params_ok P]: asset limits are not negative (types/params.go validates this);
     - [escrow_empty b]: the module account holds nothing at genesis;
-    - [wf_op]: the signer of a create message is not a module account (module accounts cannot sign)
-      and its recipient is not the htlc module account itself (that is a donation to escrow, outside
-      the property; the recipient being any other blocked module account is refused by the code).
+    - [wf_op]: the signer of a create message is not a module account (module accounts cannot sign).
+      (A recipient equal to a blocked module account or - since "fix: htlc CreateHTLC rejects a
+      recipient equal to the htlc module account" - to the htlc account itself is refused by the code,
+      and by the model; no hypothesis on recipients is needed any more.)
     Hashes are identifiers: a hash lock IS its pre-image (secret, timestamp), a contract id IS its
     pre-image (hash lock, sender, recipient, amount); the harness checks the real SHA-256 values.
 
